@@ -175,6 +175,7 @@ struct Prog
   std::vector<ctx::ContextValue> vals;  // value-id -> value; id 0 = monostate (absent)
   std::vector<int> span_vals;           // value ids holding a span
   std::vector<std::string> pool, Q;     // keys used for bindings; fixed query set (pool + near misses)
+  size_t q_span = 0;                    // index of the span key in Q
   std::vector<ctx::Context> real;       // every context ever created, never dropped
   std::vector<MCtx> model;
   std::vector<int> stack;               // model of the thread's runtime stack: family indices
@@ -280,6 +281,9 @@ struct Prog
       }
     }
     addq(std::string());
+    if (!qs.count(trace::kSpanKey))
+      Q.push_back(trace::kSpanKey);
+    q_span = static_cast<size_t>(std::find(Q.begin(), Q.end(), std::string(trace::kSpanKey)) - Q.begin());
   }
 
   // hands `k` to f as an exact-size, unterminated view and kills the storage afterwards
@@ -412,12 +416,14 @@ struct Prog
         R.violation("getvalue-most-recent", answer_class(ci, k),
                     "GetValue(" + vf::show(k, 40) + ") on new context " + describe(ci) + " gave " + show_value(got) +
                         " want " + show_value(want));
+      // HasKey is "GetValue is not monostate"; a wrong GetValue was reported above, so HasKey is only
+      // judged for agreeing with what GetValue just answered.  A key explicitly bound to monostate: don't-care.
       if (want_id(ci, k) != 0 && want.index() == 0)
         count("haskey_monostate_binding_dontcare");
-      else if (has != (want.index() != 0))
+      else if (has != (got.index() != 0))
         R.violation("haskey-consistent", answer_class(ci, k),
                     "HasKey(" + vf::show(k, 40) + ") on new context " + describe(ci) + " gave " + (has ? "true" : "false") +
-                        " but the key is " + (want.index() != 0 ? "bound to " + show_value(want) : "unbound"));
+                        " but GetValue gave " + show_value(got));
       m.first_seen[q] = got;
       m.first_has[q]  = has;
     }
@@ -443,16 +449,16 @@ struct Prog
         got = with_key(k, [&](nostd::string_view kv) { return static_cast<const ctx::Context &>(real[ci]).GetValue(kv); });
       count("recheck_queries");
       if (!same(got, m.first_seen[q]))
-        R.violation("old-context-unchanged", std::string(when) + "-" + key_class(k),
+        R.violation("old-context-unchanged", key_class(k),
                     "GetValue(" + vf::show(k, 40) + ") on " + describe(ci) + " answered " + show_value(m.first_seen[q]) +
-                        " when created and " + show_value(got) + " now (" + std::to_string(real.size() - 1 - ci) +
-                        " contexts created since)");
+                        " when created and " + show_value(got) + " at the " + when + " (" +
+                        std::to_string(real.size() - 1 - ci) + " contexts created since)");
       if (full || r.chance(1, 3))
       {
         bool has = with_key(k, [&](nostd::string_view kv) { return static_cast<const ctx::Context &>(real[ci]).HasKey(kv); });
         if (has != static_cast<bool>(m.first_has[q]))
-          R.violation("old-context-unchanged", std::string(when) + "-haskey-" + key_class(k),
-                      "HasKey(" + vf::show(k, 40) + ") on " + describe(ci) + " changed");
+          R.violation("old-context-unchanged", key_class(k),
+                      "HasKey(" + vf::show(k, 40) + ") on " + describe(ci) + " changed between creation and the " + when);
       }
     }
   }
@@ -497,7 +503,7 @@ struct Prog
       // derived from whatever is current on this thread; the current context must not change
       src = stack.empty() ? 0 : stack.back();
       nc  = with_key(k, [&](nostd::string_view kv) { return ctx::RuntimeContext::SetValue(kv, vals[vid]); });
-      check_current("after-runtime-setvalue");
+      check_current("runtime-setvalue");
     }
     real.push_back(nc);
     int ci = add_model(src, {{k, vid}}, "setvalue", false);
@@ -683,7 +689,7 @@ struct Prog
 
   // GetCurrent() must be the model's top (identity and observable answers), GetCurrentSpan() the
   // span bound in it.  Returns false (and stops judging the stack) after a mismatch.
-  bool check_current(const std::string &after)
+  bool check_current(const std::string &op, const std::string &detail = std::string())
   {
     if (lost_sync)
       return false;
@@ -691,7 +697,7 @@ struct Prog
     int want         = stack.empty() ? 0 : stack.back();
     ctx::Context cur = ctx::RuntimeContext::GetCurrent();
     count("getcurrent_checks");
-    std::string cls = after + (stack.size() > 30 ? "-deep" : "");
+    std::string cls = "after-" + op + (detail.empty() ? "" : "-" + detail);
     bool ok         = cur == real[want];
     std::string why;
     if (!ok)
@@ -713,14 +719,16 @@ struct Prog
     if (!ok)
     {
       bool foreign = foreign_owner(cur);
-      R.violation(foreign ? "thread-isolation" : "getcurrent-is-model-top", foreign ? "foreign-context-" + cls : cls,
+      R.violation(foreign ? "thread-isolation" : "getcurrent-is-model-top", foreign ? "foreign-context-after-" + op : cls,
                   why + "; model stack " + show_stack() + " want " + describe(want) + "; thread " + std::to_string(tid) +
                       (fresh_thread ? " (fresh thread)" : " (main thread)") + "; ops: " + trace_txt);
       lost_sync = true;
       return false;
     }
-    // active span
-    int sv       = want_id(want, trace::kSpanKey);
+    // active span; not judged again if this context's own answer for the span key was already reported wrong
+    int sv = want_id(want, trace::kSpanKey);
+    if (!same(model[want].first_seen[q_span], vals[sv]))
+      return true;
     SpanPtr span = trace::Tracer::GetCurrentSpan();
     count("current_span_checks");
     if (vals[sv].index() == 5)
@@ -728,7 +736,7 @@ struct Prog
       count("current_span_bound");
       if (span.get() != nostd::get<SpanPtr>(vals[sv]).get())
       {
-        R.violation("current-span", "span-bound-" + cls,
+        R.violation("current-span", "span-bound-after-" + op,
                     "GetCurrentSpan() gave " + show_value(ctx::ContextValue(span)) + " want " + show_value(vals[sv]) +
                         "; model stack " + show_stack());
         lost_sync = true;
@@ -742,7 +750,7 @@ struct Prog
         is_ours |= nostd::get<SpanPtr>(vals[id]).get() == span.get();
       if (!span || is_ours || span->GetContext().IsValid())
       {
-        R.violation("current-span", std::string(sv == 0 ? "no-span-" : "non-span-value-") + cls,
+        R.violation("current-span", std::string(sv == 0 ? "no-span-after-" : "non-span-value-after-") + op,
                     "GetCurrentSpan() gave " + show_value(ctx::ContextValue(span)) +
                         " although no span is bound in the current context; model stack " + show_stack());
         lost_sync = true;
@@ -774,9 +782,24 @@ struct Prog
       ci = stack[r.below(stack.size())];
     else if (r.chance(1, 12))
       ci = 0;
+    // Whether the result of SetValues/Context of an EMPTY collection is a new context or the same one
+    // as its source is not fixed by the statement: such a context is never attached itself (contexts
+    // derived from it are).
+    if (ci != 0 && model[ci].added.empty())
+    {
+      count("attach_skipped_identity_dontcare");
+      ci = 0;
+    }
     bool dup    = std::find(stack.begin(), stack.end(), ci) != stack.end();
     bool growth = fresh_thread && grows_on_push();
-    nostd::unique_ptr<ctx::Token> t = ctx::RuntimeContext::Attach(real[ci]);
+    nostd::unique_ptr<ctx::Token> t;
+    if (r.chance(1, 4))
+    {
+      ctx::Context copy = real[ci];  // a copy is the same context
+      t                 = ctx::RuntimeContext::Attach(copy);
+    }
+    else
+      t = ctx::RuntimeContext::Attach(real[ci]);
     model_push(ci);
     count("attaches");
     if (dup)
@@ -790,7 +813,7 @@ struct Prog
     if (!(*t == real[ci]))
       vf::report().violation("attach-returns-token", "token-not-equal-context", "token != attached context " + describe(ci));
     toks.push_back({std::move(t), ci});
-    check_current(growth ? "after-attach-at-growth" : "after-attach");
+    check_current("attach", growth ? "at-growth" : "");
     chash      = vf::mix(chash, 0xa77ac ^ static_cast<uint64_t>(ci) * 7);
     nontrivial = true;
     note("Attach(#" + std::to_string(ci) + ")");
@@ -827,7 +850,7 @@ struct Prog
       vf::report().violation("detach-result", cls,
                              "Detach(token of #" + std::to_string(ci) + ") on " + before + " returned " +
                                  (got ? "true" : "false") + " want " + (want ? "true" : "false"));
-    check_current("after-detach-" + cls);
+    check_current("detach", cls);
     chash = vf::mix(chash, 0xde7ac ^ static_cast<uint64_t>(i) * 13);
     note("Detach(tok#" + std::to_string(ci) + ":" + kind_name(kind) + ")");
   }
@@ -845,7 +868,7 @@ struct Prog
     toks.erase(toks.begin() + static_cast<long>(i));
     count_detach(kind, doubled);
     count("token_drops");
-    check_current(std::string("after-token-drop-") + kind_name(kind) + (doubled ? "-double-attached" : ""));
+    check_current("token-drop", std::string(kind_name(kind)) + (doubled ? "-double-attached" : ""));
     chash = vf::mix(chash, 0xd409 ^ static_cast<uint64_t>(i) * 17);
     note("drop(tok#" + std::to_string(ci) + ":" + kind_name(kind) + ")");
   }
@@ -868,7 +891,7 @@ struct Prog
     SpanPtr cur = trace::Tracer::GetCurrentSpan();
     if (cur.get() != nostd::get<SpanPtr>(vals[sv]).get())
     {
-      vf::report().violation("current-span", growth ? "after-scope-create-at-growth" : "after-scope-create",
+      vf::report().violation("current-span", "span-bound-after-scope-create",
                              "Scope(span) did not make the span current: got " + show_value(ctx::ContextValue(cur)) +
                                  " want " + show_value(vals[sv]) + "; model stack " + show_stack());
       // what GetCurrent() returned is not the scope's context; do not judge it as a context
@@ -879,7 +902,7 @@ struct Prog
       return;
     }
     check_new(ci);
-    check_current(growth ? "after-scope-create-at-growth" : "after-scope-create");
+    check_current("scope-create", growth ? "at-growth" : "");
     chash      = vf::mix(chash, 0x5c09e ^ static_cast<uint64_t>(parent) * 3);
     nontrivial = true;
     note("Scope(span)");
@@ -913,7 +936,7 @@ struct Prog
     count("scope_destroys");
     if (kind != kTop)
       count("scope_destroys_not_on_top");
-    check_current(std::string("after-scope-destroy-") + kind_name(kind));
+    check_current("scope-destroy", kind_name(kind));
     chash = vf::mix(chash, 0x5cde5 ^ static_cast<uint64_t>(i) * 19);
     note(std::string("~Scope(") + kind_name(kind) + ")");
   }
@@ -979,7 +1002,7 @@ struct Prog
       }
     }
     // the thread starts with an empty stack
-    check_current("at-start");
+    check_current("thread-start");
 
     bool deep   = r.chance(3, 10);
     size_t nops = static_cast<size_t>(r.range(0, mode == kMt ? 160 : 300));
@@ -1028,7 +1051,7 @@ struct Prog
     {
       if (!stack.empty())
         R.violation("harness-self-check", "model-stack-not-empty", "model stack " + show_stack() + " after releasing everything");
-      check_current("after-cleanup");
+      check_current("cleanup");
     }
     recheck_all(true, "final-recheck");
     if (lost_sync)
